@@ -29,13 +29,13 @@ MANIFEST = dict(
          "unit / function names gives a typed tree with the same echo (expressions without sugar and negative literals); "
          "(3) C15_decorator_echo — the echo of EVERY decorator (any strings, any alias list with accepts annotations) is read "
          "back by the parser as that decorator; C15_definition_echo_partial — over a model of Statement::pretty_print for "
-         "let / unit / fn definitions (decorators one per line, name, readable types as type-annotation trees, echo of the "
+         "let / unit / fn / dimension / struct definitions (decorators one per line, name, readable types as type-annotation trees, echo of the "
          "body and of where-clauses) the echo of every echoable definition is accepted and read back as that definition "
          "with the same decorators and types (tied token-wise to the implementation's echo on generated decorated definitions); "
          "(4) C15_reassociation_refuted — the excluded class (a sum or product on the right loses its parentheses) is real. "
          "NOT proved, checked on the implementation only (echo oracle: interpret, echo, re-interpret the echo in a clone of "
          "the session, compare acceptance, type, value to 1e-12, echo of the echo, and a probe expression): how the readable "
-         "types of statements are computed (inference, generalisation), dimension / struct definitions, "
+         "types of statements are computed (inference, generalisation), "
          "interpolated strings, the number formatter, elaboration of the temperature sugar, type equality, and the "
          "fixed-point clause outside the proved class.",
     design_ref="DESIGN.md §6 C15; design/syntax.md",
@@ -58,7 +58,7 @@ TRUSTED = [
     "model Syntax/TypedPrinter.v is a hand port of typed_ast.rs impl PrettyPrint for Expression / pretty_print_binop / with_parens / with_parens_liberal / call_syntax / is_temperature_sugar; Syntax/StrEsc.v of pretty_print.rs escape_numbat_string and parser.rs strip_and_escape",
     "correspondence: tokens of the implementation's echo (numbat::verif::syntax::dump_tokens) vs Syntax.ExecTyped.show_pp of the typed tree the generator intends (vm_compute in coqc)",
     "the parser model of C10 (Syntax/Parser.v), tied to parser.rs by the C10 check",
-    "model Syntax/DefEcho.v (echo_deco, pp_def) is a hand port of typed_ast.rs decorator_markup and Statement::pretty_print for DefineVariable / DefineDerivedUnit / DefineFunction with the readable types given; tied token-wise on generated decorated definitions (Syntax.ExecTyped.show_def)",
+    "model Syntax/DefEcho.v (echo_deco, pp_def) is a hand port of typed_ast.rs decorator_markup and Statement::pretty_print for DefineVariable / DefineDerivedUnit / DefineFunction / DefineDimension / DefineStruct with the readable types given; tied token-wise on generated decorated definitions (Syntax.ExecTyped.show_def)",
     "oracle: harness `echo` interprets through the public API numbat::Context::interpret and Statement::pretty_print",
 ]
 
@@ -86,7 +86,7 @@ def model_items(chk, binary, quick):
         c.update(kind="typed-tree", feat=[])
     # definitions with decorators: the echo of let / unit / fn (Syntax/DefEcho.v) token-wise, and the oracle
     # with a probe that uses an alias
-    dcases, dterms = def_cases(chk.rng, 60 if quick else 400)
+    dcases, dterms = def_cases(chk.rng, 90 if quick else 600)
     dres = run_echo(binary, dcases)
     dkeep = [n for n, r in enumerate(dres) if r["status"] == "OK"]
     ddumps = common.run_harness(binary, "syntax", [L.hexline(dres[n]["echo"]) for n in dkeep])
@@ -110,7 +110,37 @@ def def_cases(rng, count):
     length = "(YIdent %s None)" % cs("Length")
     cases, terms = [], []
     for k in range(count):
-        kind = rng.choice(["let", "let", "unit", "unit", "fn"])
+        kind = rng.choice(["let", "let", "unit", "unit", "fn", "dimension", "struct", "genfn"])
+        if kind in ("dimension", "struct", "genfn"):
+            yi = lambda n: "(YIdent %s None)" % cs(n)
+            if kind == "dimension":
+                name = "Dq%d" % k
+                alt = rng.choice([None,
+                                  ("Length * Time / Mass^2", "(YDiv (YMul %s %s) (YPow %s (XNum %s)))" % (yi("Length"), yi("Time"), yi("Mass"), cs("2"))),
+                                  ("Length / Time^(1/2)", "(YDiv %s (YPow %s (XParDiv (XNum %s) (XNum %s))))" % (yi("Length"), yi("Time"), cs("1"), cs("2"))),
+                                  ("Mass^(-1)", "(YPow %s (XPar (XMinus (XNum %s))))" % (yi("Mass"), cs("1"))),
+                                  ("(Length * Time)^3", "(YPow (YParen (YMul %s %s)) (XNum %s))" % (yi("Length"), yi("Time"), cs("3")))])
+                stmt = "dimension %s" % name + (" = " + alt[0] if alt else "")
+                term = "(EDDimension %s [%s])" % (cs(name), alt[1] if alt else "")
+                probe = "1"
+            elif kind == "struct":
+                name = "Sq%d" % k
+                pool = [("a", "Scalar", yi("Scalar")), ("b", "Length", yi("Length")), ("c", "Bool", "YBool"),
+                        ("d", "String", "YString"), ("e", "List<Scalar>", "(YList %s)" % yi("Scalar"))]
+                fs = [f for f in pool if rng.random() < 0.6]
+                stmt = "struct %s { %s }" % (name, ", ".join("%s: %s" % (f, t) for f, t, _ in fs)) if fs else "struct %s {}" % name
+                term = "(EDStruct %s [] [%s])" % (cs(name), "; ".join("(%s, %s)" % (cs(f), c) for f, _, c in fs))
+                probe = "1"
+            else:
+                name = "gq%d" % k
+                body = ("bin", "Mul", ("id", "x"), ("id", "y"))
+                stmt = "fn %s<D: Dim>(x: D, y: D^2) -> D^3 = %s" % (name, ttree.src(body))
+                term = "(EDFn [] %s [(%s, true)] [(%s, %s); (%s, (YPow %s (XNum %s)))] (YPow %s (XNum %s)) (Some %s) [])" % (
+                    cs(name), cs("D"), cs("x"), yi("D"), cs("y"), yi("D"), cs("2"), yi("D"), cs("3"), ttree.coq(body))
+                probe = "%s(2 m, 3 m^2)" % name
+            cases.append(dict(setup=echogen.SETUP, stmt=stmt, probe=probe, kind="echoed-definition", feat=[]))
+            terms.append(term)
+            continue
         decos_src, decos_coq, aliases = [], [], []
 
         def text_deco(word, ctor):
